@@ -117,6 +117,20 @@ def gen_cases(r, n):
             rd = r.choice(["rv:%d" % sz, "rv:%d" % sz, "rs"])
             ops = ["in:" + hx(data), rd, r.choice(["ro:1", "rs", "rv:8", "cl", "ro:4"]), r.choice(["ro:1", "ro:8", "rv:1"])]
             out.append(("MS default " + " ".join(ops), {"kind": "malformed", "sz": sz, "n": n, "payload": len(payload), "read": rd}))
+        elif m < 0.84:
+            # the overflow window of has_remaining: a length word c with read_pos_ + c >= 2^64 (a bound check written as
+            # read_pos_ + c <= data_length_ would wrap and pass), after a first read that moves the position
+            W = 1 << 64
+            k = r.choice([0, 1, 3, 4, 8, 12, 16])
+            payload = rbytes(r, r.choice([0, 1, 4, 8, 12]))
+            pos = k + 8
+            sz = r.choice([1, 1, 2, 4, 8])
+            c = r.choice([W - pos, W - pos + 1, W - pos - 1, W - 1, W - 8, W - pos + len(payload), W - pos + len(payload) + 1, W - 2 * pos])
+            n = (c // sz) % W if sz > 1 else c % W
+            data = rbytes(r, k) + le64(n) + payload
+            rd = "rs" if sz == 1 and r.random() < 0.6 else "rv:%d" % sz
+            ops = ["in:" + hx(data)] + (["ro:%d" % k] if k else []) + [rd, r.choice(["ro:1", "rs", "rv:8", "ro:4"])]
+            out.append(("MS default " + " ".join(ops), {"kind": "malformed", "sz": sz, "n": n, "payload": len(payload), "read": rd}))
         elif m < 0.90:
             # small max_length: badbit, writes after an error, then re-open and read
             items = [gen_item(r, sizes8=(r.random() < 0.5)) for _ in range(r.randint(1, 5))]
@@ -274,7 +288,7 @@ def run_codec(run, model, unit, quick):
                     meta = eval(m.strip(), {"__builtins__": {}}, {})
                     l = l.strip()
                 cases.append((l, meta))
-    cases += gen_cases(r, 2500 if quick else 60000)
+    cases += gen_cases(r, 2500 if quick else 50000)
     cases += gen_typed(r, 90 if quick else 1800)
     lines = [c for c, _ in cases]
     rc1, impl, e1 = V.run_lines(unit, lines, timeout=900)
